@@ -339,7 +339,10 @@ def ValGoal (W : Nat) (bs pad : List Nat) (s : PState) (f : Frame) (rest : List 
     (res : Except Json.Reject (JVal × Nat)) : Prop :=
   match res with
   | .ok (v, next) => AfterVal W bs pad s f rest (valueSwitch W s c (contOf f)) p next v ∨
-      (ErrT W bs (valueSwitch W s c (contOf f)) (p + 1) ∧ ¬ CapV s p next)
+      (ErrT W bs (valueSwitch W s c (contOf f)) (p + 1) ∧ ¬ CapV s p next) ∨
+      -- a number token followed by `.` or a digit (`Doomed`): the reference rejects at the next token, and so does
+      -- the machine, whatever value it has pushed
+      (ErrT W bs (valueSwitch W s c (contOf f)) (p + 1) ∧ Doomed bs next)
   | .error _ => ErrT W bs (valueSwitch W s c (contOf f)) (p + 1)
 
 theorem afterScalar_ok {bs pad : List Nat} {ph : Phase} {s : PState} {F : List Frame} (h : MInv bs pad ph s F)
@@ -363,6 +366,24 @@ theorem scalar_land {W : Nat} {bs pad : List Nat} {s s1 : PState} {f : Frame} {r
   rw [hpos1] at hat'
   exact ⟨0, s', n, c', ⟨_, by rw [hr]; exact ha, Reaches.refl _⟩, hat', hgood.mono hpres', hpres.trans hpres',
     by omega, hnext.2⟩
+
+/-- at a `cont` label a token that is neither `,` nor a closing bracket ends the parse -/
+theorem cont_err_final {W : Nat} {bs pad : List Nat} {s : PState} {f : Frame} {rest : List Frame} {c : Nat}
+    (h : MInv bs pad .cont s (f :: rest)) (h1 : c ≠ 0x2C) (h2 : c ≠ 0x5D) (h3 : c ≠ 0x7D) :
+    ∃ s', step W s (contOf f c) = .ok (s', none) ∧ ErrFinal bs s' := by
+  have hd := h.depth
+  cases hdd : s.depth with
+  | nil => rw [hdd] at hd; exact hd.elim
+  | cons d ds =>
+    refine ⟨{ s with depth := incr d :: ds, err := kParseErrorInvalidChar }, ?_,
+      h.errFull (by rfl) rfl rfl rfl⟩
+    unfold contOf
+    cases f.isArr
+    · simp only [Bool.false_eq_true, if_false, step, bumpDepth, hdd, h1]
+      rw [if_pos h3]
+      rfl
+    · simp only [if_true, step, bumpDepth, hdd, h1, if_false, h2]
+      rfl
 
 /-- at a `cont` label the sentinel `x` is neither `,` nor a closing bracket -/
 theorem cont_x_err {W : Nat} {bs pad : List Nat} {s : PState} {f : Frame} {rest : List Frame}
